@@ -212,3 +212,12 @@ CHECKS["C22"] = dict(
     level_text="Site x side x block-index fault grid on generated DAGs with a differential bystander check; crash attribution through a journal. One defect class (storage functions) recorded.",
     level_note="Intra-step interleavings are the Go scheduler's.",
     technique="rapid fault-injection testing (panic sites) in a synctest bubble with crash journaling", design_ref="DESIGN.md §4 C22")
+
+CHECKS["C25"] = dict(
+    pkg="props/c25", level="fault_enumeration", gomaxprocs=1,
+    rule="one real responder serving a chain of 3-8 blocks (60 / 150 / 400 byte payloads) with a per-peer memory limit of 1-3 blocks (sometimes a total limit of 3 peers' worth), 2-6 workers and per-peer request limit {unset,1,2}; a stalled peer S whose every SendMsg blocks for ever first issues 1-2 requests until its allowance is exhausted (a reservation for S is pending: read from Stats); then 2-10 generated operations for S and for a healthy peer H: new requests (optionally with a request hook that sends extension data), cancel and update messages, responder API pause / unpause (optionally with extensions) / SendUpdate / cancel, 150 ms pauses; H's responses may pause themselves at a block and are resumed at the end; the block hook may add extension data to every block for H. S is never released. Oracle at final quiescence + 1 h virtual: every request H issued was answered to its terminal status (completed listener) or was cancelled by H; every control call (including PeerState for H) returned. Non-trivial: S's allowance was actually exhausted before the healthy traffic began (cases where it was not are not judged). Cases in two known-finding classes are excluded by construction and counted.",
+    assumptions=_SIM_ASSUME + ["the requestor-side half of the property (a stalled responder does not stop responses from others) is exercised only through the requestor's size-0 request sends; no memory is reserved there"],
+    quick=dict(shards=2, timeout=400), thorough=dict(shards=16, timeout=3000),
+    level_text="Generated multi-peer traffic against a responder with one peer stalled for ever; liveness decided at exact quiescence with an hour of virtual time, not by a wall-clock deadline. Two defect classes recorded.",
+    level_note="Intra-step interleavings are the Go scheduler's.",
+    technique="rapid fault-injection testing (stalled peer) in a synctest bubble with a liveness oracle at quiescence", design_ref="DESIGN.md §4 C25")
